@@ -438,6 +438,21 @@ def check(ck, prog):
                             eq = True
                 if not eq:
                     bad.append((b, f"i advances by {k} without the {k} byte(s) at s1+i and s2+i having compared equal"))
+            # no byte is looked at outside [0, n): every pointer formed for a load (s1 + i, s2 + i) is formed under i < n - a loop tested at
+            # the bottom reads byte 0 of a zero-length comparison (and may answer "different" for it)
+            unguarded = []
+            for bbx, tx in c.cfg.calls(lambda t: (t.get("callee") or "").endswith(PTR_ADD)):
+                ax = c.args(bbx)
+                a1 = strip_casts(ax[1]) if len(ax) > 1 else None
+                if canon(ax[0]) in ("p1", "p2") and isinstance(a1, tuple) and a1[0] == "var" and a1[1] == il:
+                    fs = panics.dominating_facts(c, bbx)
+                    inside = any(f[0] == "cmp" and ((f[1] == "Lt" and isinstance(strip_casts(f[2]), tuple) and strip_casts(f[2])[0] == "var" and strip_casts(f[2])[1] == il and canon(strip_casts(f[3])) == "p3") or
+                                                    (f[1] == "Gt" and isinstance(strip_casts(f[3]), tuple) and strip_casts(f[3])[0] == "var" and strip_casts(f[3])[1] == il and canon(strip_casts(f[2])) == "p3") or
+                                                    (f[1] == "Ne" and {canon(strip_casts(f[2])), canon(strip_casts(f[3]))} == {"p3", canon(a1)})) for f in fs)
+                    if not inside:
+                        unguarded.append(bbx)
+            ck.ob("C08.7", "bytes-read-only-below-n", not unguarded, fn=cb["path"], site=c.site(unguarded[0]) if unguarded else None,
+                  detail="a byte of s1/s2 is addressed without `i < n` having been established: with n == 0 nothing may be read, and the answer must be 0")
             ck.ob("C08.7", "index-moves-only-past-equal-bytes", not bad and len(stepd) >= 1, fn=cb["path"], site=c.site(bad[0][0]) if bad else None, detail="; ".join(x for _, x in bad) or "no index step found")
         for nm in ("memcmp",):
             f = prog.fns.get(M + nm)
